@@ -186,3 +186,11 @@ Example C25_ex_wf :
   mint_wf {| m_worker := 0; m_ident := ident_of ex_alice; m_created := 1000; m_sid := ex_sid; m_exp := 1100; m_nonce := ex_nonce |}
   /\ ident_ok (ident_of ex_bob) /\ wf_plain 1000 ex_wid ex_sid 1100.
 Proof. vm_compute. repeat split; reflexivity || discriminate. Qed.
+(* the armour round trip on concrete envelopes of the three residues mod 3 (the general statement
+   [forall raw, decode_text (b64u_encode raw) = Some raw] is NOT proved; it is checked on every real token by the
+   correspondence run of props/C25.py) *)
+Example C25_ex_armour_roundtrip :
+  decode_text ex_txt = Some (1 :: ex_nonce ++ ex_body) /\
+  decode_text (b64u_encode (1 :: ex_nonce ++ ex_body ++ [255])) = Some (1 :: ex_nonce ++ ex_body ++ [255]) /\
+  decode_text (b64u_encode (1 :: ex_nonce ++ ex_body ++ [255; 254])) = Some (1 :: ex_nonce ++ ex_body ++ [255; 254]).
+Proof. vm_compute. repeat split; reflexivity. Qed.
